@@ -329,6 +329,13 @@ func (r *Runner) checkStatExact(when string) {
 // checkSizeLimit: a data file exceeds the DataFileSize in force when it was written only when it holds a single
 // record (plus, for a batch, its sealing record) that alone exceeds the limit.
 func (r *Runner) checkSizeLimit(when string, recs map[uint32][]scanRec, ids []uint32) {
+	limits := r.trackLimits()
+	r.sizeLimitVerdict(when, recs, ids, limits)
+}
+
+// trackLimits brings the per-file "limit in force when written" up to date with the journal, under the configuration
+// currently in force (so it must also run right before a step switches configurations after having written).
+func (r *Runner) trackLimits() map[int]int64 {
 	limits, _ := r.extra["limits"].(map[int]int64)
 	if limits == nil {
 		limits = map[int]int64{}
@@ -346,6 +353,10 @@ func (r *Runner) checkSizeLimit(when string, recs map[uint32][]scanRec, ids []ui
 		}
 	}
 	r.extra["limitsNext"] = seen
+	return limits
+}
+
+func (r *Runner) sizeLimitVerdict(when string, recs map[uint32][]scanRec, ids []uint32, limits map[int]int64) {
 	for _, id := range ids {
 		n := fmt.Sprintf("db/%09d.data", id)
 		f := r.FS.Live.File(n)
